@@ -110,7 +110,7 @@ class Gen:
         lines.append(dict(self.BLANK))
         unit = 2 if r.random() < 0.85 else r.choice([1, 3, 4])
         odd = r.random() < 0.06                 # some deeper step is two units at once
-        pblanksub = 0.25 if r.random() < 0.12 else 0.0
+        pblanksub = 0.3 if r.random() < 0.5 else 0.0   # a blank line before an indented item: 'ignored' must hold there too
         n = r.randint(1, 9)
         stack = [0]
         maxd = 1
